@@ -15,6 +15,7 @@ RULE = ("plans: a generated valid configuration (all listener/connector kinds, T
         "(port 70000, bufferSize 0 / 2^40, udpMaxSocket 0, historySize 2^63), missing/empty/garbage certificate and key files, load-balancer member graphs with "
         "self-reference and longer cycles, bad filters and bad hash/log scripts; each configuration is loaded with --test and started normally, then probed once per "
         "listener (and through every load balancer); also JSON rule lists posted to /rules; non-trivial = at least one mutation applied; distinct = configuration hash")
+RULE_MORE = 'Later additions: random typed rule-language expressions with rare arity/index/type/syntax faults and deep nesting; inconsistent balancers that no rule of the file leads to, named by a posted list; a log on a full file system; every run (also --test) ends with a seeded runtime shutdown (tasks cancelled in seeded order, blocking pool gone).'
 LEVEL_TEXT = ("seeded exploration: the varied dimension is configuration input, what simulation adds is the hermetic environment in which an accepted configuration can really "
               "be started and probed (ports, files, certificates, peers) - the half the suite cannot reach; a run must end in 'started' or 'exited with an error message', "
               "never in a panic, a signal, or a hang (wall-clock watchdog 30 s against millisecond runs, 6 GiB address-space limit)")
